@@ -94,7 +94,7 @@ def _import_stmt(b: tuple, local: str, src_mod: str) -> Optional[ast.stmt]:
     return None
 
 
-def _plan_copy(h: ast.FunctionDef, x: str, m: str, trees: Dict[str, ast.Module], mods: Set[str]) -> Optional[List[ast.stmt]]:
+def _plan_copy(h: ast.FunctionDef, x: str, m: str, trees: Dict[str, ast.Module], mods: Set[str], known: Set[str] = frozenset()) -> Optional[List[ast.stmt]]:
     """the imports to add to m so that h means the same there; None if it cannot be made to"""
     bx, bm = _bindings(trees[x], mods), _bindings(trees[m], mods)
     tx, tm = _top(trees[x]), _top(trees[m])
@@ -119,6 +119,9 @@ def _plan_copy(h: ast.FunctionDef, x: str, m: str, trees: Dict[str, ast.Module],
             if bm[g] != want:
                 return None
         elif g in tm:
+            if g in tx and f"{m}.{g}" in known and isinstance(tm[g], ast.FunctionDef) and isinstance(tx[g], ast.FunctionDef) \
+                    and ast.dump(tm[g]) == ast.dump(tx[g]):
+                continue                  # the same known function, already put back in m
             return None                   # m defines something else under that name
         else:
             st = _import_stmt(want, g, x)
@@ -193,7 +196,7 @@ def rehome(trees: Dict[str, ast.Module], known: Set[str]) -> Dict[str, int]:
                         continue          # a known function of another module that was moved: B puts it back there
                     if h.decorator_list:
                         continue
-                    plan = _plan_copy(h, x, m, trees, mods)
+                    plan = _plan_copy(h, x, m, trees, mods, known)
                     if plan is None:
                         continue
                     c = copy.deepcopy(h)
@@ -228,7 +231,7 @@ def rehome(trees: Dict[str, ast.Module], known: Set[str]) -> Dict[str, int]:
             h = _top(trees[x])[f]
             if f"{x}.{f}" in known or h.decorator_list:
                 continue
-            plan = _plan_copy(h, x, m, trees, mods)
+            plan = _plan_copy(h, x, m, trees, mods, known)
             if plan is None:
                 continue
             _insert(trees[m], plan, copy.deepcopy(h))
